@@ -138,6 +138,29 @@ fn trunc_probe(len: usize, cut: usize, on_disk: bool) -> String {
     out
 }
 
+/// `Tar::from_reader` over a legal `Read + Seek` that never returns more than the rest of the current 4 KiB page.
+fn shortread_probe(len: usize) -> String {
+    use assets_manager::source::Tar;
+    use std::io::{Read, Seek, SeekFrom};
+    #[derive(Clone)]
+    struct Paged(std::io::Cursor<std::sync::Arc<[u8]>>);
+    impl Read for Paged {
+        fn read(&mut self, buf: &mut [u8]) -> std::io::Result<usize> {
+            let pos = self.0.position() as usize;
+            let room = 4096 - pos % 4096;
+            let n = buf.len().min(room);
+            self.0.read(&mut buf[..n])
+        }
+    }
+    impl Seek for Paged { fn seek(&mut self, p: SeekFrom) -> std::io::Result<u64> { self.0.seek(p) } }
+    let data: Vec<u8> = (0..len).map(|i| (i * 11 + 1) as u8 | 1).collect();   // no zero byte
+    let ms = vec![Member { is_file: true, path: "small.x".into(), bytes: b"ok".to_vec() }, Member { is_file: true, path: "d/big.x".into(), bytes: data.clone() }];
+    let Ok(bytes) = build_tar(&ms) else { return "harness-error".into() };
+    let tar = match Tar::from_reader(Paged(std::io::Cursor::new(bytes.into()))) { Ok(t) => t, Err(e) => return format!("refused:{}", e.kind()) };
+    let got = match tar.read("d.big", "x") { Ok(c) => c.as_ref().to_vec(), Err(e) => return format!("err:{}", e.kind()) };
+    if got == data { "same".into() } else if got.len() != len { format!("{}-bytes", got.len()) } else { format!("different-from-byte-{}", got.iter().zip(&data).position(|(a, b)| a != b).unwrap_or(0)) }
+}
+
 static EMBFIX: assets_manager::source::RawEmbedded<'static> = assets_manager::source::embed!("fixtures/embtree");
 
 fn embfix_compare() -> Vec<String> {
@@ -199,6 +222,10 @@ impl Engine for SrcEngine {
             return l;
         }
         if idx == N_SMALL * per_tree { return vec!["embfix".into()]; }
+        if idx == N_SMALL * per_tree + 2 || (idx > N_SMALL * per_tree + 2 && idx % 40 == 8) {
+            // a well-formed tar served by a reader that returns short reads (never crosses a 4 KiB page)
+            return vec![format!("shortread {}", rng.range(4097, if tier == Tier::Thorough { 60000 } else { 20000 }))];
+        }
         if idx == N_SMALL * per_tree + 1 || (idx > N_SMALL * per_tree + 1 && idx % 40 == 7) {
             // a tar archive cut short inside the data of its last member (in memory and on disk)
             let len = rng.range(2, if tier == Tier::Thorough { 5000 } else { 700 });
@@ -279,6 +306,14 @@ impl Engine for SrcEngine {
                     rec.stat(format!("trunc/{out}"));
                     if out == "prefix" || out == "garbage" { fresh.push(format!("truncated-member-read-as-prefix tar source: a member of {len} bytes whose data was cut by {cut} bytes was read back successfully ({out}) instead of failing")); }
                     rec.op("src.trunc".to_string(), if out == "prefix" || out == "garbage" { out } else { "err-or-refused".to_string() });
+                }
+                "shortread" => {
+                    let len = w[1].parse::<usize>().unwrap_or(5000).max(1);
+                    let out = shortread_probe(len);
+                    rec.nontrivial = true;
+                    rec.stat(format!("shortread/{out}"));
+                    if out != "same" { fresh.push(format!("short-read-zero-filled tar source over a reader with short reads: a member of {len} bytes was read back as {out}")); }
+                    rec.op("src.shortread".to_string(), out);
                 }
                 "embfix" => {
                     // the `embed!` macro itself (compile-time table over harness/fixtures/embtree) against FileSystem over the same directory
